@@ -337,6 +337,10 @@ func (rw *rewriter) file(f *ast.File, constSet map[string]bool) error {
 			case rw.isPkgSel(n.Fun, "time", "Sleep"), rw.isPkgSel(n.Fun, "time", "After"), rw.isPkgSel(n.Fun, "time", "NewTimer"), rw.isPkgSel(n.Fun, "time", "AfterFunc"), rw.isPkgSel(n.Fun, "time", "Tick"), rw.isPkgSel(n.Fun, "time", "NewTicker"):
 				rw.counts["WARNING-timer-not-modelled:"+rw.relFile]++
 			}
+		case *ast.SelectorExpr:
+			if rep := rw.fieldHook(n, c); rep != nil {
+				c.Replace(rep)
+			}
 		case *ast.IndexExpr:
 			if isMap(rw.typeOf(n.X)) {
 				t := rw.typeOf(n)
@@ -411,6 +415,57 @@ func (rw *rewriter) mapHook(fn string, m ast.Expr, at ast.Node) ast.Expr {
 		rw.typeOv[nc] = t
 	}
 	return nc
+}
+
+// fieldHook wraps reads/writes of multi-word struct fields (slice, string, interface) for the
+// happens-before race oracle: x.f  ->  (*vsched.Rd(&x.f, "site")).
+func (rw *rewriter) fieldHook(n *ast.SelectorExpr, c *astutil.Cursor) ast.Expr {
+	sel, ok := rw.info.Selections[n]
+	if !ok || sel.Kind() != types.FieldVal {
+		return nil
+	}
+	t := sel.Type()
+	if t == nil {
+		return nil
+	}
+	switch u := t.Underlying().(type) {
+	case *types.Slice, *types.Interface:
+	case *types.Basic:
+		if u.Info()&types.IsString == 0 {
+			return nil
+		}
+	default:
+		return nil
+	}
+	tv, ok := rw.info.Types[n]
+	if !ok || !tv.Addressable() {
+		return nil
+	}
+	// not when the address is taken, not as a composite-literal key, not on the left of :=
+	switch p := c.Parent().(type) {
+	case *ast.UnaryExpr:
+		if p.Op == token.AND {
+			return nil
+		}
+	case *ast.KeyValueExpr:
+		if p.Key == n {
+			return nil
+		}
+	case *ast.SelectorExpr:
+		// x.f.g where we are x.f: fine (read)
+	}
+	fn := "Rd"
+	if rw.lhs[n] {
+		fn = "Wr"
+		rw.counts["field-write"]++
+	} else {
+		rw.counts["field-read"]++
+	}
+	addr := &ast.UnaryExpr{Op: token.AND, X: n}
+	call := rw.call(fn, addr, rw.site(n, exprText(rw.fset, n)))
+	out := &ast.ParenExpr{X: &ast.StarExpr{X: call}}
+	rw.typeOv[out] = t
+	return out
 }
 
 func (rw *rewriter) isConstOrNil(e ast.Expr) bool {
